@@ -367,3 +367,59 @@ def frame_getitem_contract(fr):
             return Vs(self, (Y - 1) // 2, X // 2)
         raise PyRaise(IndexError("index does not specify a loop edge"))
     return c
+
+
+# ------------------------------------------------------------------------------------------------ default arrays
+SOLV = "cspuz/solver.py"
+
+
+@harness("C14", cases=[dict(order=o) for o in ("dual-first", "edges-first", "dual-twice")],
+         native_inputs=_hw_inputs(lambda h, w: [dict()]))
+def default_arrays(case):
+    """BoolGridFrame(solver, h, w) without explicit arrays: the frame owns ONE array of shape (h+1, w) and ONE of shape
+    (h, w+1), whatever is called first; dual() hands over exactly those two objects (exchanged), never fresh ones, and
+    the dual of the dual has the frame's own arrays again"""
+    h, w = sint("h"), sint("w")
+    requires(And(h >= 0, w >= 0))
+    made = []
+    if modelled():
+        def bool_array(it, a, k):
+            shp = a[1]
+            if not (isinstance(shp, tuple) and len(shp) == 2):
+                raise OutOfSubset("bool_array with a non-pair shape")
+            arr = OBJ(A, "BoolArray2D", shape=(shp[0], shp[1]), data=slist("arr%d" % len(made), "ref", shp[0] * shp[1]))
+            made.append(arr)
+            return arr
+        use_contract(SOLV + "::Solver.bool_array", bool_array)
+        solver = OBJ(SOLV, "Solver", variables=mklist([]), is_answer_key=mklist([]), constraints=mklist([]))
+    else:
+        solver = construct(CLS(SOLV, "Solver"))
+    fr = construct(CLS(GF, "BoolGridFrame"), solver, h, w)
+    if case.order == "edges-first":
+        hz0, vt0 = attr(fr, "horizontal"), attr(fr, "vertical")
+    o = call(REAL(GF, "BoolGridFrame.dual"), fr)
+    check("no-exception", not o.raised)
+    if o.raised:
+        return
+    d = o.value
+    if case.order == "dual-twice":
+        o = call(REAL(GF, "BoolGridFrame.dual"), fr)
+        check("no-exception-second-dual", not o.raised)
+        if o.raised:
+            return
+        check("both-duals-share-the-arrays", And(same(attr(o.value, "horizontal"), attr(d, "horizontal")),
+                                                 same(attr(o.value, "vertical"), attr(d, "vertical"))))
+    hz, vt = attr(fr, "horizontal"), attr(fr, "vertical")
+    if case.order == "edges-first":
+        check("the-frame-keeps-its-arrays", And(same(hz, hz0), same(vt, vt0)))
+    check("shapes", And(attr(hz, "shape")[0] == h + 1, attr(hz, "shape")[1] == w, attr(vt, "shape")[0] == h, attr(vt, "shape")[1] == w + 1))
+    check("the-dual-has-the-frame's-own-arrays-exchanged", And(same(attr(d, "horizontal"), vt), same(attr(d, "vertical"), hz)))
+    if modelled():
+        check("two-arrays-are-made-in-all", len(made) == 2)
+    o2 = call(REAL(GF, "BoolInnerGridFrame.dual"), d)
+    check("no-exception-dual-of-dual", not o2.raised)
+    if o2.raised:
+        return
+    dd = o2.value
+    check("dual-of-dual-has-the-same-arrays", And(same(attr(dd, "horizontal"), hz), same(attr(dd, "vertical"), vt)))
+    check("and-the-same-size", And(attr(dd, "height") == h, attr(dd, "width") == w))
